@@ -58,6 +58,9 @@ func ConnState(conn *grpc.ClientConn) connectivity.State {
 		switch connKind[conn] {
 		case "p4":
 			st = W.P4.State
+			if st == connectivity.Ready && W.P4.NeedReconnect {
+				st = connectivity.Idle
+			}
 		default:
 			st = W.Bess.State
 			// grpc-go parks a channel without RPCs in IDLE after its idle timeout
